@@ -335,11 +335,20 @@ class ProgramGen:
                 "ins": ins, "short": n == 1 and rng.random() < 0.5}
 
     def infer(self, e: Any) -> Tuple[Optional[List[Any]], Optional[Any]]:
+        """(inferred output name, quantity the definition will have once earlier definitions are folded in)."""
         while "step" in e and len(e["ins"]) == 1:
             e = e["ins"][0]
         if "ref" in e and self.key(e["ref"]) not in self._defined_before:
             a = e["amt"]
             return e["ref"], (a if a is not None and "q" in a else None)
+        if "ref" in e and self.key(e["ref"]) in self._defined_before:
+            # a chain: the quantity becomes inferable only after the referenced definition is folded in
+            a = e["amt"]
+            whole = a is None or ("p" in a and (a["p"][0] is None or c.num_unjson(a["p"][0]) == 1))
+            if whole:
+                return None, self.defined[self.key(e["ref"])][1]
+            if a is not None and "q" in a:
+                return None, a
         return None, None
 
     def stmt(self) -> Any:
